@@ -324,6 +324,20 @@ def d5(cx: Cx, ob: Ob) -> None:
                 truthy_use = True
         if ev.kind == "guard" and ev.a == ctxattr:
             truthy_use = True
+    for tt, ev, ctx in cs.all_terms():
+        if True:
+            for x in subterms(tt):
+                if op(x) == "call" and op(x[1]) == "attr" and x[1][2] in ("pop", "popitem", "clear", "update", "setdefault", "__delitem__") and any(y == ctxattr for y in subterms(x[1][1])):
+                    ob.violate(
+                        ch.qualname,
+                        where(ch, ev.line),
+                        f"_converter_from_validation_info mutates the validation context (.{x[1][2]}): pydantic hands the SAME context object to every field validator of a validation, and callers reuse it across calls - after the first prefix the converter is gone and later references are neither standardised nor rejected",
+                        witness="Triple.model_validate({...}, context={'converter': c}): only the subject is standardised",
+                        detail="context-mutated",
+                    )
+    for ev, ctx in cs.walk():
+        if ev.kind in ("store", "delete") and op(ev.a) == "item" and any(y == ctxattr for y in subterms(ev.a[1])):
+            ob.violate(ch.qualname, where(ch, ev.line), "_converter_from_validation_info writes into the validation context", detail="context-mutated")
     if truthy_use:
         conv_cls = cx.model.cls(CONV, ob.id)
         for dunder in ("__len__", "__bool__"):
@@ -502,3 +516,26 @@ def d8(cx: Cx, ob: Ob) -> None:
 
     T = "curies.triples"
     open_args_agreement(cx, ob, [f"{T}._get_file", f"{T}.write_triples"], [f"{T}._get_file", f"{T}.read_triples"], "triples round trip")
+
+
+@obligation("C15-D9", "JSON round trip: no serializer hook in the Reference hierarchy drops or rewrites a field by truthiness (an empty-string name is a value, None is the absence)", floor=3)
+def d9(cx: Cx, ob: Ob) -> None:
+    for ci in ref_classes(cx, ob):
+        ob.site(f"src/curies/{ci.module.relpath}:{ci.node.lineno} {ci.qualname}", "serializer hooks")
+        for m in ci.methods.values():
+            if not any(d.split("(")[0].rsplit(".", 1)[-1] in ("model_serializer", "field_serializer") for d in m.decorators):
+                continue
+            s = cx.summary(m, ob.id)
+            for ev, ctx in s.walk():
+                if ev.kind != "guard":
+                    continue
+                t = ev.a
+                fieldish = (op(t) == "call" and callee_name(t) == "get" and t[2] and is_const(t[2][0]) and isinstance(t[2][0][1], str)) or (op(t) == "item" and is_const(t[2]) and isinstance(t[2][1], str)) or (op(t) == "attr" and op(t[1]) == "param" and t[2] in ("name", "prefix", "identifier"))
+                if fieldish:
+                    ob.violate(
+                        m.qualname,
+                        where(m, ev.line),
+                        f"{ci.name}.{m.name} decides by the truth value of `{show(t)[:40]}`: an empty string is treated like a missing value, so the serialised form does not validate back to an equal object",
+                        witness="NamedReference(prefix='a', identifier='1', name='') dumps without 'name' and fails to validate",
+                        detail="serializer-truthiness",
+                    )
